@@ -733,7 +733,7 @@ def run(chk, tier):
         "4096, SectionHeadSize 32, MxMemHeadSize 32, quantum 256 (the page counts they predict are compared with what "
         "stoShowDetail reports, as drift information)",
         "a collection inside stoFree / stoAlloc is provoked by using up the free heap pages (script command D) in automatic "
-        "mode, or by hook H1b (hooks/H1b-pagesget-gc.diff) when the tree has it; situations in which the unchanged tree is "
+        "mode, or by hook H1b (hooks/unapplied-H1b-pagesget-gc.diff) when the tree has it; situations in which the unchanged tree is "
         "known to fail are separate scripts (known_findings.jsonl, mode reent-known)",
     ]
     # the model runs and the runs against the real allocator are independent: do them side by side
@@ -882,6 +882,6 @@ start inside an operation (stage D, scale_runs / scale_apply; C10_STAGES=scale r
  crashed; they are now one mapping that is read-only except while being extended.  fault() dropped the whole output
  buffer, so a trace ended with the Fault alone; it now keeps the complete events.
  Findings on the unchanged tree (known_findings.jsonl, mode reent-known; candidate patch
- hooks/candidate-C10-no-collection-inside-index-update.diff makes all four scripts pass): a collection started by pagesGet
+ hooks/fix-C10-no-collection-inside-index-update.diff makes all four scripts pass): a collection started by pagesGet
  inside stoFree / stoAlloc (page request of mxmemLink, no page free, automatic mode) damages the free index.
 """
